@@ -173,6 +173,14 @@ class AgentEnv(object):
                                              random_bulk=random_bulk))
         ru.PWatcher = _FakePWatcher
 
+        # FastTypedDict does not copy mutable defaults: RMInfo.agent_node_list
+        # etc. are one object per *process*.  Production initialises one RM from
+        # scratch per process; the harness creates many, so give each the fresh
+        # defaults a fresh interpreter would have.
+        for key, val in list(m_rmbase.RMInfo._defaults.items()):
+            if isinstance(val, (list, dict)):
+                m_rmbase.RMInfo._defaults[key] = type(val)()
+
         reg_url  = 'mem://reg'
         self.reg = memzmq.RegistryClient(url=reg_url)
         for q in QUEUES:
